@@ -636,10 +636,12 @@ def user_locals_of_type(body, ty_pat):
     return [i for i, l in enumerate(body.locals) if i > body.j['arg_count'] and l['names'] and re.search(ty_pat, l['ty'])]
 
 
-def value_roots(body, term, blk, idx='term', _seen=None):
+def value_roots(body, term, blk, idx='term', _seen=None, _path=0):
     """Where can the value of `term` at (blk, idx) come from? Follows named / multi-definition locals through their
     reaching definitions, copies, conversions, `?` and Some/Ok payload projections. Returns a list of root terms
-    (calls, parameters, constants, other expressions)."""
+    (calls, parameters, constants, other expressions).  _path counts payload projections (Some/Ok/Continue .0) that were
+    peeled on the way: a definition that builds such a value contributes its payload, one that builds None/Err/Break
+    contributes nothing (the projection is not taken on that path)."""
     if _seen is None:
         _seen = set()
     t = term
@@ -647,9 +649,18 @@ def value_roots(body, term, blk, idx='term', _seen=None):
         t = peel_all(t)
         if t[0] == 'f' and t[1][0] == 'dc' and t[1][2] in ('Some', 'Ok', 'Continue') and t[2] == '0':
             t = t[1][1]
-            if is_call(t, r'Try::branch$'):
-                t = t[2][0]
+            _path += 1
             continue
+        if is_call(t, r'Try::branch$') and _path:
+            t = t[2][0]
+            continue
+        if t[0] == 'agg' and _path and isinstance(t[3], dict):
+            if t[2] in ('Some', 'Ok', 'Continue') and '0' in t[3]:
+                t = t[3]['0']
+                _path -= 1
+                continue
+            if t[2] in ('None', 'Err', 'Break'):
+                return []
         break
     if t[0] == 'v' and not (1 <= t[2] <= body.j['arg_count']):
         rds = reaching_defs(body, t[2], blk, idx)
@@ -660,17 +671,20 @@ def value_roots(body, term, blk, idx='term', _seen=None):
                 continue
             _seen.add(key)
             dt = body.call_term(db, obj) if kind == 'call' else body.rvalue_term(obj['r'], 0, db)
-            out += value_roots(body, dt, db, di, _seen)
+            out += value_roots(body, dt, db, di, _seen, _path)
         return out
     if t[0] == 't':
         out = []
-        for db, di, kind, obj in body.defs().get(t[1], []):
+        ds = body.defs().get(t[1], [])
+        if len(ds) > 1:
+            ds = reaching_defs(body, t[1], blk, idx)
+        for db, di, kind, obj in ds:
             key = (t[1], db, di)
             if key in _seen:
                 continue
             _seen.add(key)
             dt = body.call_term(db, obj) if kind == 'call' else body.rvalue_term(obj['r'], 0, db)
-            out += value_roots(body, dt, db, di, _seen)
+            out += value_roots(body, dt, db, di, _seen, _path)
         return out
     return [t]
 
